@@ -5,7 +5,8 @@ from seeded register sets (CSR, CSRStatus ro/writable, CSRStorage plain/atomic/d
 fields with offsets/pulse/reset, sizes 1..70, fixed and automatic locations), bus width 8/16/32, big/little
 ordering, paging. Parties: "software" (one CSR-bus access per cycle from a literal list, any address) and
 "device" (drives status / CSR.w / storage we+dat_w from a literal list, racing bus writes). Oracle: a
-register-file model stepped on the recorded inputs, compared with every observable every cycle."""
+register-file model stepped on the recorded inputs, compared with every observable every cycle.
+Family 'mem' (props/c12_mem.py): memories mapped into the CSR space next to a register bank."""
 from dsim.kernel import Bench, wrap_top, Agent
 from dsim.wb_agents import PortRecorder
 
@@ -27,7 +28,7 @@ ASSUMPTIONS = [
     "register/bank layout follows creation order with fixed locations `n` counted in registers, holes reserved",
 ]
 COMPONENTS = {"real": ["litex.soc.interconnect.csr.CSR/CSRStatus/CSRStorage/CSRField/AutoCSR/_sort_gathered_items/GenericBank",
-                       "litex.soc.interconnect.csr_bus.CSRBank/CSRBankArray/Interconnect/Interface", "litex.gen.sim.core.Simulator"],
+                       "litex.soc.interconnect.csr_bus.CSRBank/CSRBankArray/SRAM/Interconnect/Interface", "litex.gen.sim.core.Simulator"],
               "stub": ["software and device agents", "clock source", "tracer shim (not needed: explicit names)"]}
 CHUNK = 4
 
@@ -35,7 +36,7 @@ CHUNK = 4
 SEEDED_SCALE = {"quick": 8, "thorough": 8}      # multiplies the run counts of the sampled families in plan()
 
 def plan(tier):
-    return [("bank", 200 if tier == "quick" else 12000)]
+    return [("bank", 200 if tier == "quick" else 12000), ("mem", 40 if tier == "quick" else 3000)]
 
 
 # ------------------------------------------------------------------------------------------------
@@ -77,6 +78,9 @@ def draw_reg(rng, busword, idx, allow_atomic_little=False, ordering="big"):
 
 
 def generate(family, rng, tier, atomic_little=False):
+    if family == "mem":
+        from props import c12_mem
+        return c12_mem.generate(rng, tier)
     busword = rng.choice([8, 8, 32, 32, 16])
     ordering = rng.choice(["big", "little"]) if not atomic_little else "little"
     paging = rng.choice([0x800, 0x800, 0x400, 0x1000])
@@ -277,6 +281,9 @@ class Driver(Agent):
 
 
 def run(scn):
+    if scn.get("family") == "mem":
+        from props import c12_mem
+        return c12_mem.run(scn)
     p = scn["params"]
     bw = p["busword"]
     lay = layout(p)
